@@ -9,7 +9,11 @@
 //	           NodeInfo; after every step the real projection is compared with the model state `t`
 //	           (field mm) and logged.
 //	-in f      scenarios {"id","n","gpumem","cpu","maxpods","kinds":[...],"ops":[{"op","p","st","grp"}]}
-//	           (replay of a recorded scenario).
+//	           (replay of a recorded scenario). Operations (vocabulary of NodeAcct.tla): SnapAdd, Allocate,
+//	           Pipeline, PipelineOnly, ConvPipeline (AddTask); Evict (UpdateTask -> Releasing); Unevict
+//	           (UpdateTask, or AddTask if the pod is not on the node); Unallocate, Unpipeline (RemoveTask);
+//	           Consolidate (ConsolidateSharedPodInfoToDifferentGPU); UnpipelineMoved (RemoveTask +
+//	           RestoreSharedPodInfoOnPreviousGPU); OpenSession, ConvertStart, Commit (no node call).
 //	-random N  N seeded random sessions: a feasible snapshot followed by statements shaped like the
 //	           allocate action (Allocate/Pipeline, ConvertAllAllocatedToPipelined, Rollback, Commit,
 //	           failed bind) and like the solvers (Evict, pipeline-only placement incl. Unevict and
